@@ -2,6 +2,7 @@ package main
 
 import (
 	"fmt"
+	"math/rand"
 	"strings"
 
 	"github.com/sahilm/fuzzy"
@@ -44,138 +45,164 @@ func engineFuzzy(ctx *Ctx) {
 				continue
 			}
 		}
-		cmds := db.Commands
-		N := len(cmds)
-		if N == 0 {
-			continue
-		}
-		words := vlib.DBWords(cmds)
-		if len(words) > 3000 {
-			words = words[:3000]
-		}
 		nq := nQ
 		if dbName == "shipped" {
 			nq = ctx.Pick(30, 200)
 		}
-		for qi := 0; qi < nq; qi++ {
-			var q string
-			switch qi % 6 {
-			case 0:
-				q = vlib.GenQuery(r, words, 1+r.Intn(3), 0) // exact words: a lexical answer exists
-			case 1, 2:
-				q = vlib.GenQuery(r, words, 1+r.Intn(2), 2) // misspellings
-			case 3: // fragment of a raw word of some entry
-				c := cmds[r.Intn(N)]
-				f := strings.Fields(c07Text(&c))
-				w := f[r.Intn(len(f))]
-				if len(w) > 4 {
-					w = w[1 : len(w)-1]
-				}
-				q = w
-			case 4:
-				q = []string{"a", "z", "?", "-", "..", "to", "the", "x y", "é", "日", " ", "q"}[r.Intn(12)]
-			default: // letters scattered over one entry's text, in order
-				t := []rune(c07Text(&cmds[r.Intn(N)]))
-				var b []rune
-				for i := 0; i < len(t) && len(b) < 7; i += 1 + r.Intn(5) {
-					if t[i] != 0 {
-						b = append(b, t[i])
-					}
-				}
-				q = string(b)
-				if r.Intn(2) == 0 {
-					q = strings.ToUpper(q)
+		c07Phase(ctx, r, db, dbName, "load", nq)
+		if dbName == "shipped" || len(db.Commands) == 0 {
+			continue
+		}
+		// histories: the fallback must match against the commands being searched *now*
+		cdb := database.NewCachedDatabase(db)
+		sp := dbSpecFor(r, d+ctx.Shard+1)
+		sp.Platforms = 0
+		sp.N = len(db.Commands)
+		if !ctx.R.Guard("C07", "UpdateDatabase", dbName, func() {
+			cdb.UpdateDatabase(vlib.MustLoad(vlib.GenCommands(r, sp)).Commands) // same size, different contents
+		}) {
+			continue
+		}
+		c07Phase(ctx, r, db, dbName, "same-size-replacement", nq/3+1)
+		if !ctx.R.Guard("C07", "append", dbName, func() {
+			db.Commands = append(db.Commands, vlib.MustLoad(vlib.GenCommands(r, vlib.DBSpec{N: 1 + r.Intn(4)})).Commands...)
+		}) {
+			continue
+		}
+		c07Phase(ctx, r, db, dbName, "append", nq/3+1)
+	}
+}
+
+// c07Phase runs the fuzzy-on / fuzzy-off oracles against the database as it is now.
+func c07Phase(ctx *Ctx, r *rand.Rand, db *database.Database, dbName, phase string, nq int) {
+	cmds := db.Commands
+	N := len(cmds)
+	if N == 0 {
+		return
+	}
+	words := vlib.DBWords(cmds)
+	if len(words) > 3000 {
+		words = words[:3000]
+	}
+	for qi := 0; qi < nq; qi++ {
+		var q string
+		switch qi % 6 {
+		case 0:
+			q = vlib.GenQuery(r, words, 1+r.Intn(3), 0) // exact words: a lexical answer exists
+		case 1, 2:
+			q = vlib.GenQuery(r, words, 1+r.Intn(2), 2) // misspellings
+		case 3: // fragment of a raw word of some entry
+			c := cmds[r.Intn(N)]
+			f := strings.Fields(c07Text(&c))
+			w := f[r.Intn(len(f))]
+			if len(w) > 4 {
+				w = w[1 : len(w)-1]
+			}
+			q = w
+		case 4:
+			q = []string{"a", "z", "?", "-", "..", "to", "the", "x y", "é", "日", " ", "q"}[r.Intn(12)]
+		default: // letters scattered over one entry's text, in order
+			t := []rune(c07Text(&cmds[r.Intn(N)]))
+			var b []rune
+			for i := 0; i < len(t) && len(b) < 7; i += 1 + r.Intn(5) {
+				if t[i] != 0 {
+					b = append(b, t[i])
 				}
 			}
-			if q == "" {
-				continue
+			q = string(b)
+			if r.Intn(2) == 0 {
+				q = strings.ToUpper(q)
 			}
-			thr := []int{0, 0, 0, -30, -5, 1, 40}[r.Intn(7)]
-			o := database.SearchOptions{Limit: []int{3, 5, 10, N + 1}[r.Intn(4)], UseNLP: r.Intn(2) == 0, AllPlatforms: true, FuzzyThreshold: thr}
-			oOn := o
-			oOn.UseFuzzy = true
-			cs := map[string]interface{}{"db": dbName, "n": N, "query": q, "opts": vlib.OptsJ(oOn)}
-			ctx.R.Begin(cs)
-			ctx.R.Eval(1)
-			ctx.R.Guard("C07", "SearchUniversal", cs, func() {
-				refs, stable := vlib.StableRef(5, func() vlib.Ranked { return vlib.Canon(cmds, db.SearchUniversal(q, o)) })
-				onRes := db.SearchUniversal(q, oOn)
-				on := vlib.Canon(cmds, onRes)
-				if len(refs[0]) > 0 {
-					// (i) an answer that exists is not changed by typo tolerance
-					ctx.R.Path("lexical-answer-exists", 1)
-					verdict, why := vlib.CompareToRef(refs, stable, on, o.Limit)
-					switch verdict {
-					case "violated":
-						ctx.R.Violate(vlib.Violation{Property: "C07", Clause: "fuzzy-changes-existing-answer", Path: "SearchUniversal",
-							Detail:  "the search without typo tolerance returns results, with it the list differs: " + why,
-							Witness: map[string]interface{}{"case": cs, "without": refs[0], "with": on}})
-					case "inconclusive":
-						ctx.R.Inconcl(why)
-					}
+		}
+		if q == "" {
+			continue
+		}
+		thr := []int{0, 0, 0, -30, -5, 1, 40}[r.Intn(7)]
+		o := database.SearchOptions{Limit: []int{3, 5, 10, N + 1}[r.Intn(4)], UseNLP: r.Intn(2) == 0, AllPlatforms: true, FuzzyThreshold: thr}
+		oOn := o
+		oOn.UseFuzzy = true
+		cs := map[string]interface{}{"db": dbName, "n": N, "query": q, "opts": vlib.OptsJ(oOn), "after": phase}
+		ctx.R.Begin(cs)
+		ctx.R.Eval(1)
+		ctx.R.Guard("C07", "SearchUniversal", cs, func() {
+			refs, stable := vlib.StableRef(5, func() vlib.Ranked { return vlib.Canon(cmds, db.SearchUniversal(q, o)) })
+			onRes := db.SearchUniversal(q, oOn)
+			on := vlib.Canon(cmds, onRes)
+			if len(refs[0]) > 0 {
+				// (i) an answer that exists is not changed by typo tolerance
+				ctx.R.Path("lexical-answer-exists", 1)
+				verdict, why := vlib.CompareToRef(refs, stable, on, o.Limit)
+				switch verdict {
+				case "violated":
+					ctx.R.Violate(vlib.Violation{Property: "C07", Clause: "fuzzy-changes-existing-answer", Path: "SearchUniversal",
+						Detail:  "the search without typo tolerance returns results, with it the list differs: " + why,
+						Witness: map[string]interface{}{"case": cs, "without": refs[0], "with": on}})
+				case "inconclusive":
+					ctx.R.Inconcl(why)
+				}
+				return
+			}
+			for _, rr := range refs {
+				if len(rr) > 0 {
+					ctx.R.Inconcl("lexical answer sometimes empty")
 					return
 				}
-				for _, rr := range refs {
-					if len(rr) > 0 {
-						ctx.R.Inconcl("lexical answer sometimes empty")
-						return
-					}
+			}
+			// nothing matches lexically: the fallback decides
+			if len(on) > 0 {
+				ctx.R.Path("fallback-answered", 1)
+				ctx.R.Path("fallback-answered-after:"+phase, 1)
+				ctx.R.Nontriv(dbName, q, thr, o.UseNLP, o.Limit)
+				if thr != 0 {
+					ctx.R.Path("fallback-with-threshold", 1)
 				}
-				// nothing matches lexically: the fallback decides
-				if len(on) > 0 {
-					ctx.R.Path("fallback-answered", 1)
-					ctx.R.Nontriv(dbName, q, thr, o.UseNLP, o.Limit)
-					if thr != 0 {
-						ctx.R.Path("fallback-with-threshold", 1)
-					}
-					if qi < 6 {
-						ctx.R.Sample(map[string]interface{}{"case": cs, "returned": len(on)})
-					}
-				} else {
-					ctx.R.Path("fallback-empty", 1)
+				if qi < 6 {
+					ctx.R.Sample(map[string]interface{}{"case": cs, "returned": len(on)})
 				}
-				prevQ, havePrev := 0, false
-				for rank, x := range onRes {
-					text := c07Text(x.Command)
-					if !vlib.SubseqFold(q, text) {
-						ctx.R.Violate(vlib.Violation{Property: "C07", Clause: "not-a-match", Path: "SearchUniversal/fuzzy",
-							Detail:  fmt.Sprintf("rank %d %s does not contain the query's characters in order", rank, vlib.Q(vlib.Trunc(text, 100))),
+			} else {
+				ctx.R.Path("fallback-empty", 1)
+			}
+			prevQ, havePrev := 0, false
+			for rank, x := range onRes {
+				text := c07Text(x.Command)
+				if !vlib.SubseqFold(q, text) {
+					ctx.R.Violate(vlib.Violation{Property: "C07", Clause: "not-a-match", Path: "SearchUniversal/fuzzy",
+						Detail:  fmt.Sprintf("rank %d %s does not contain the query's characters in order", rank, vlib.Q(vlib.Trunc(text, 100))),
+						Witness: cs})
+					continue
+				}
+				ql, ok := c07Quality(q, text)
+				if !ok {
+					ctx.R.Inconcl("matcher gives no quality for a returned text")
+					continue
+				}
+				if thr != 0 && ql < thr {
+					cl := "below-threshold"
+					if thr < 0 {
+						cl = "below-negative-threshold"
+					}
+					ctx.R.Violate(vlib.Violation{Property: "C07", Clause: cl, Path: "SearchUniversal/fuzzy",
+						Detail:  fmt.Sprintf("rank %d has match quality %d, requested threshold %d", rank, ql, thr),
+						Witness: map[string]interface{}{"case": cs, "text": vlib.Trunc(text, 200)}})
+				}
+				if havePrev && ql > prevQ {
+					ctx.R.Violate(vlib.Violation{Property: "C07", Clause: "not-best-first", Path: "SearchUniversal/fuzzy",
+						Detail:  fmt.Sprintf("rank %d has quality %d, better than rank %d (%d)", rank, ql, rank-1, prevQ),
+						Witness: cs})
+				}
+				prevQ, havePrev = ql, true
+			}
+			// (v) no threshold: some text contains the characters in order => not left without a result
+			if thr == 0 && len(on) == 0 {
+				for i := range cmds {
+					if vlib.SubseqFold(q, c07Text(&cmds[i])) {
+						ctx.R.Violate(vlib.Violation{Property: "C07", Clause: "match-left-without-result", Path: "SearchUniversal/fuzzy",
+							Detail:  fmt.Sprintf("entry %d %s contains the query's characters in order, yet the answer is empty", i, vlib.Q(vlib.Trunc(c07Text(&cmds[i]), 100))),
 							Witness: cs})
-						continue
-					}
-					ql, ok := c07Quality(q, text)
-					if !ok {
-						ctx.R.Inconcl("matcher gives no quality for a returned text")
-						continue
-					}
-					if thr != 0 && ql < thr {
-						cl := "below-threshold"
-						if thr < 0 {
-							cl = "below-negative-threshold"
-						}
-						ctx.R.Violate(vlib.Violation{Property: "C07", Clause: cl, Path: "SearchUniversal/fuzzy",
-							Detail:  fmt.Sprintf("rank %d has match quality %d, requested threshold %d", rank, ql, thr),
-							Witness: map[string]interface{}{"case": cs, "text": vlib.Trunc(text, 200)}})
-					}
-					if havePrev && ql > prevQ {
-						ctx.R.Violate(vlib.Violation{Property: "C07", Clause: "not-best-first", Path: "SearchUniversal/fuzzy",
-							Detail:  fmt.Sprintf("rank %d has quality %d, better than rank %d (%d)", rank, ql, rank-1, prevQ),
-							Witness: cs})
-					}
-					prevQ, havePrev = ql, true
-				}
-				// (v) no threshold: some text contains the characters in order => not left without a result
-				if thr == 0 && len(on) == 0 {
-					for i := range cmds {
-						if vlib.SubseqFold(q, c07Text(&cmds[i])) {
-							ctx.R.Violate(vlib.Violation{Property: "C07", Clause: "match-left-without-result", Path: "SearchUniversal/fuzzy",
-								Detail:  fmt.Sprintf("entry %d %s contains the query's characters in order, yet the answer is empty", i, vlib.Q(vlib.Trunc(c07Text(&cmds[i]), 100))),
-								Witness: cs})
-							break
-						}
+						break
 					}
 				}
-			})
-		}
+			}
+		})
 	}
 }
